@@ -42,12 +42,13 @@ D6_CLASS = ("object follows the end of two or more nested blocks at once (an emp
 # ------------------------------------------------------------------ D6 status: the single flag
 
 def d6_status():
-    """'open' | 'fixed' | 'unlisted' — from the LAST KNOWN_FINDINGS.jsonl line with id D6 and property C18.
+    """'open' | 'fixed' — from the LAST KNOWN_FINDINGS.jsonl line with id D6 and property C18; not listed counts as
+    'fixed' (nothing is tolerated; the file is never written at run time).
     VERIF_C18_D6=open|fixed overrides (diagnostics only: used to try the check against a patched /repo)."""
     ov = os.environ.get("VERIF_C18_D6")
     if ov in ("open", "fixed"):
         return ov
-    st = "unlisted"
+    st = "fixed"
     if os.path.exists(KNOWN_PATH):
         for line in open(KNOWN_PATH):
             line = line.strip()
@@ -60,17 +61,6 @@ def d6_status():
             if d.get("id") == "D6" and d.get("property") == "C18":
                 st = "fixed" if str(d.get("status", "")).startswith("fixed") else "open"
     return st
-
-
-def record_d6(witness):
-    entry = {"id": "D6", "property": "C18", "status": "open", "class": D6_CLASS,
-             "recorded_behaviour": "the gate equals what the proven transcription of the pass (Cfg.propagate_cfg, pop once) "
-                                   "computes and is a strict superset of own U enclosing atoms; the extra atoms belong to "
-                                   "blocks that do not enclose the object (Coq: C18_multi_level_exit_refuted)",
-             "witness": witness}
-    with open(KNOWN_PATH, "a") as f:
-        f.write(json.dumps(entry, sort_keys=True) + "\n")
-    return entry
 
 
 # ------------------------------------------------------------------ generator
@@ -697,8 +687,6 @@ def run(ctx):
                    "extra_atoms": hits[0].get("extra_atoms")}
         known = [f for f in vlib.load_known_findings("C18") if f.get("id") == "D6"]
         finding = known[-1] if known else None
-        if finding is None and status == "unlisted":
-            finding = record_d6(witness)
         if finding is None:
             finding = {"id": "D6"}
         vlib.known_finding(ctx, finding, f"cfg of a closed block leaks onto later objects after a multi-level exit: {d6_items} items in "
